@@ -268,3 +268,69 @@ def c17(ctx, replay):
                          "64 guard bytes either side, buffers ending/starting at an unmapped page; distinct = (length, alignment, implementation) cells")
     ctx.assumptions += ["the XOR and memory safety are observed through the harness projection (key-byte index per position, guard bytes, page faults); "
                         "TLC decides pattern, rotation, composability and the block decomposition of maskGo", "arm64 assembly cannot be executed in this sandbox"]
+
+
+# ---------------------------------------------------------------------------------------------
+# Handshake family (C11-C14): decision tables written by TLC from spec/WSHandshake.tla
+
+def hs_rows(ctx, mode, out, big=False):
+    rec, _ = ctx.tlc("WSHandshakeRows", "HandshakeRows.cfg", env={"MODE": mode, "OUT": out, "BIG": 1 if big else 0},
+                     workers=8, name="handshake-%s%s" % (mode, "-big" if big else ""), timeout=1500)
+    ctx.count_model(rec)
+    return rec
+
+
+@check("C11")
+def c11(ctx, replay):
+    rows = ctx.path("c11.ndjson")
+    hs_rows(ctx, "c11", rows, big=not ctx.quick())
+    ctx.absorb(ctx.drive("accept", ["-rows", rows, "-seed", ctx.seed]))
+    pipelined(ctx)
+    ctx.extra["exhaustive"] = True
+    ctx.extra["rule"] = ("grammar of upgrade requests: method x HTTP version x Connection/Upgrade headers (absent, 1-2 lines of 1-2 tokens incl. case "
+                         "variants and look-alikes) x version x 9 key variants x offered/supported subprotocol lists; requests are built in wire form and "
+                         "parsed by net/http before reaching Accept; distinct = distinct TLC rows; plus pipelined client frames through a real net/http server")
+    ctx.assumptions += ["SHA-1/base64 are computed independently by the harness (crypto/sha1); the spec treats them as uninterpreted",
+                        "only the status class (>=400, not hijacked) is judged for invalid requests"]
+
+
+def pipelined(ctx):
+    rep = ctx.drive("pipelined", ["-seed", ctx.seed])
+    ctx.absorb(rep)
+
+
+@check("C12")
+def c12(ctx, replay):
+    rows = ctx.path("c12.ndjson")
+    hs_rows(ctx, "c12", rows)
+    ctx.absorb(ctx.drive("origin", ["-rows", rows, "-seed", ctx.seed]))
+    ctx.extra["exhaustive"] = True
+    ctx.extra["rule"] = ("origin grammar: 3 request hosts x (no Origin | url with scheme x userinfo trick x 7 host look-alikes x port x 5 tails | schemeless | "
+                         "opaque | null) x 12 pattern sets x InsecureSkipVerify = 46512 rows; TLC also checks the recursive Glob against an independent "
+                         "NFA-style matcher on all patterns <=3 x strings <=4 over a 5/3-letter alphabet (18876 states)")
+    ctx.assumptions += ["origins naming no host and pattern lists with a malformed pattern are left open by the statement (recorded, not judged)"]
+
+
+@check("C13")
+def c13(ctx, replay):
+    rows = ctx.path("c13.ndjson")
+    hs_rows(ctx, "c13", rows, big=not ctx.quick())
+    ctx.absorb(ctx.drive("dialresp", ["-rows", rows, "-seed", ctx.seed]))
+    ctx.extra["exhaustive"] = True
+    ctx.extra["rule"] = ("responses: status {101,200,400,500} x Connection x Upgrade variants x accept {correct, for another key, missing, case-changed} x "
+                         "subprotocol x requested list x extension answers x client mode; request side: 90 DialOptions combinations (header override attempts, "
+                         "Host override, subprotocols, modes) with key freshness over all dials; distinct = TLC rows")
+
+
+@check("C14")
+def c14(ctx, replay):
+    srv, cli = ctx.path("c14srv.ndjson"), ctx.path("c14cli.ndjson")
+    hs_rows(ctx, "c14srv", srv, big=not ctx.quick())
+    hs_rows(ctx, "c14cli", cli)
+    ctx.absorb(ctx.drive("nego", ["-rows", srv, "-rows2", cli, "-seed", ctx.seed], timeout=3000))
+    ctx.extra["exhaustive"] = True
+    ctx.extra["rule"] = ("all lists of <=2 (quick) / <=3 (thorough) offers over an 18-letter offer alphabet (RFC 7692 parameter grammar incl. malformed, "
+                         "duplicated, unknown parameters and foreign extensions) x 3 server modes, sent on one header line and on several; all 14 response "
+                         "shapes x 3 client modes; every successful handshake followed by a 4+4 message compressed exchange with a reference peer that applies "
+                         "exactly the agreed context-takeover parameters; Agree is a TLC-checked theorem of the spec")
+    ctx.assumptions += ["Go compress/flate is the reference DEFLATE codec", "client_no_context_takeover in a response is at the server's discretion unless the offer carried it"]
